@@ -365,6 +365,37 @@ def extract_preseed():
                     raise ExtractError(f"{path}:{n.lineno}: write to an unknown location")
                 ws.append((files[oc[0]], n.lineno))
         out[key] = sorted(ws, key=lambda x: x[1])
+    # where the emission preseeds are drawn from: the process-wide generator (every draw is a fresh one),
+    # or a generator object built inside gen_seed_emis from a fixed seed (the stream restarts on every call)
+    fn = _func(tree, "gen_seed_emis", path)
+    built = {}
+    for n in ast.walk(fn):
+        if isinstance(n, ast.Assign) and len(n.targets) == 1 and isinstance(n.targets[0], ast.Name) \
+                and isinstance(n.value, ast.Call) and any(w in ast.unparse(n.value.func) for w in
+                                                          ("RandomState", "default_rng", "Generator", "Random")):
+            built[n.targets[0].id] = bool(n.value.args or n.value.keywords)
+    draws = []
+    for n in ast.walk(fn):
+        if isinstance(n, (ast.Assign, ast.AnnAssign)):
+            tgt = n.targets[0] if isinstance(n, ast.Assign) else n.target
+            if isinstance(tgt, ast.Name) and tgt.id == "emis_preseed" and isinstance(n.value, ast.Call):
+                draws.append(n.value)
+    if not draws:
+        raise ExtractError(f"{path}:{fn.lineno}: the draws of the emission preseeds were not found in gen_seed_emis")
+    restart = False
+    for c in draws:
+        f = ast.unparse(c.func)
+        if f in ("np.random.randint", "numpy.random.randint", "np.random.random_integers"):
+            continue
+        base = c.func.value if isinstance(c.func, ast.Attribute) else None
+        if isinstance(base, ast.Name) and base.id in built:
+            restart = restart or built[base.id]
+            continue
+        raise ExtractError(f"{path}:{c.lineno}: unexpected source of an emission preseed: {ast.unparse(c)}")
+    for n in ast.walk(fn):      # re-seeding the process-wide generator inside gen_seed_emis restarts it as well
+        if isinstance(n, ast.Call) and ast.unparse(n.func) in ("np.random.seed", "numpy.random.seed"):
+            restart = True
+    out["seedRestart"] = (restart, draws[0].lineno)
     # reuse rule of the daily seed series
     fn = _func(tree, "gen_seed_timeseries", path)
     outer = [n for n in fn.body if isinstance(n, ast.If) and "os.path.isfile(preseed_loc)" in ast.unparse(n.test)]
@@ -604,6 +635,7 @@ def render(t):
         "  seedWrites := [" + ", ".join(f".{f}" for f, _ in t["seedWrites"]) + "]",
         "  tsWrites := [" + ", ".join(f".{f}" for f, _ in t["tsWrites"]) + "]",
         "  tsExact := " + ("true" if t["tsExact"][0] else "false"),
+        "  seedRestart := " + ("true" if t["seedRestart"][0] else "false"),
         "  hashWholeFile := " + ("true" if t["hashWholeFile"][0] else "false"),
         "  vwKeysRemoved := " + ("true" if any(r[0] == "vw" for r in t["removedKeys"]) else "false"),
         "  progKeysRemoved := " + ("true" if any(r[0] == "prog" for r in t["removedKeys"]) else "false"),
